@@ -245,8 +245,12 @@ func judge(class string, key []byte, o *fw.Obs) {
 		o.Count("both sides agree on a key that differs from (k + shift) mod n (judged by C02)")
 	}
 	// the receiver must not be modified
-	if !bytes.Equal(priv.Bytes(), k.FillBytes(make([]byte, 32))) || !bytes.Equal(pub.Bytes(), pb0) {
-		o.Fail("mutation", "Shift modified its receiver")
+	var privAfter, pubAfter []byte
+	if !o.Try("Bytes() of the receivers after Shift", func() { privAfter, pubAfter = priv.Bytes(), pub.Bytes() }) {
+		return
+	}
+	if !bytes.Equal(privAfter, k.FillBytes(make([]byte, 32))) || !bytes.Equal(pubAfter, pb0) {
+		o.Fail("mutation", "Shift modified its receiver: private key %x (was %x), public key %x (was %x)", privAfter, kb, pubAfter, pb0)
 		return
 	}
 	o.Count("shift both succeed")
